@@ -400,7 +400,10 @@ pub fn h1_request(method: &str, target: &str, proxy_auth: Option<&[u8]>, extra: 
     } else {
         target.to_string()
     };
-    v.extend_from_slice(format!("Host: {}\r\n", host).as_bytes());
+    // (an origin-form target names no host; such a request goes out without a Host field)
+    if !target.starts_with('/') {
+        v.extend_from_slice(format!("Host: {}\r\n", host).as_bytes());
+    }
     if let Some(a) = proxy_auth {
         v.extend_from_slice(b"Proxy-Authorization: ");
         v.extend_from_slice(a);
